@@ -11,6 +11,6 @@ ls -d $HERE/seeded/*/ | xargs -P 8 -I{} bash -c 'd={}; d=${d%/}; id=$(basename $
 grep -c CAUGHT /tmp/gfreg-seeds.txt | sed 's/^/  caught: /'; grep -v CAUGHT /tmp/gfreg-seeds.txt | sed 's/^/  NOT CAUGHT: /'
 for DIR in "$@"; do
   echo "== refactorings in $DIR"
-  ls -d $DIR/C*/r*/ 2>/dev/null | xargs -P 8 -I{} bash -c 'd={}; r=$(./matrix.sh $d/patch.diff 2>&1 | head -1); echo "$(basename $(dirname $d))/$(basename $d) $r"' | sort > /tmp/gfreg-ref.txt
+  ls -d $DIR/C*-r*/ 2>/dev/null | xargs -P 8 -I{} bash -c 'd={}; r=$(./matrix.sh $d/patch.diff 2>&1 | head -1); echo "$(basename $d) $r"' | sort > /tmp/gfreg-ref.txt
   grep -c "ALARMS: none" /tmp/gfreg-ref.txt | sed 's/^/  silent: /'; grep -v "ALARMS: none" /tmp/gfreg-ref.txt | sed 's/^/  FALSE ALARM: /'
 done
